@@ -6,6 +6,14 @@ import ProphyModel.Basic
 namespace Prophy
 namespace Patch
 
+/-- a boolean attribute of isar (`isar.flag`): true, false, 1, 0 in any case with blanks around; anything else is refused -/
+def readFlag (text : String) : Option Bool :=
+  let isBlank (c : Char) : Bool := c == ' ' || c == '\t' || c == '\n' || c == '\r' || c == '\x0b' || c == '\x0c'
+  let word := String.ofList (((text.toList.dropWhile isBlank).reverse.dropWhile isBlank).reverse.map Char.toLower)
+  if word == "true" || word == "1" then some true
+  else if word == "false" || word == "0" then some false
+  else none
+
 /-- `model.StructMember` as far as the front-ends are concerned -/
 structure PM where
   name : String
